@@ -1,19 +1,65 @@
 import Cfdm.Lemmas.ConstructsDerive
 import Cfdm.Lemmas.ConstructsConvert
 import Cfdm.Lemmas.ConstructsSub
+import Cfdm.Lemmas.ConstructsLoop
 /-
 C02 — the step theorem on the core invariant, and "a rejected call changes nothing".
 -/
 namespace Cfdm.Constructs
 
+/-- a mutator called directly on a contained construct is outside every check of the container: the
+caller must keep the construct fitting the axes recorded for it (open finding
+`direct-mutation-of-contained-construct`, witness `C02_direct_mutation_breaks_inv`) -/
+def MutOK (s : St) (key : Key) (m : Mut) : Prop :=
+  ∀ t c c', conOf s key = some (t, c) → mutCon t c m = some c' → ReplaceOK s key c' none
+
 /-- The argument choices outside the open findings (each excluded class is witnessed in `Props/C02.lean`):
 * `set_construct`: the construct is itself consistent; a domain axis stored over an existing one that
   something spans keeps its size; a coordinate reference / cell method names only existing constructs;
-* `constructs.replace` (documented as unchecked): the new construct fits, see `ReplaceOK`. -/
+* `constructs.replace` (documented as unchecked): the new construct fits, see `ReplaceOK`;
+* a mutator called on a contained construct: the changed construct still fits, see `MutOK`;
+* `insert_dimension` with `constructs=True` AND `inplace=True`: no domain topology / cell connectivity
+  construct has data (`NoTopoData`).  For such a construct the step of the loop always fails AFTER the
+  construct was reshaped, and in place that stays (open finding
+  `insert_dimension-inplace-constructs-rejected-half-way-on-topology`, witness
+  `C02_inplace_insert_dimension_topology_breaks_inv`). -/
 def Admissible (s : St) : Op → Prop
   | .setc _ t c key _ => SetOK s t c key
   | .replace key c axes => ReplaceOK s key c axes
+  | .mutate key m => MutOK s key m
+  | .insdim _ _ cs ip => (cs && ip) = true → NoTopoData s
   | _ => True
+
+theorem setDataNew_core {s : St} (h : Core s) (shp : List Nat) (axes : Option (List Key)) :
+    Core (setDataNew true s shp axes).1 := by
+  unfold setDataNew
+  have hc := copyField_core h
+  cases hcp : copyField true s with
+  | mk new o =>
+    rw [hcp] at hc
+    cases o with
+    | rejected => exact h
+    | ok k =>
+      simp only
+      have hd := setData_core hc shp axes
+      cases hsd : setData true new shp axes with
+      | mk n' o' =>
+        rw [hsd] at hd
+        cases o' with
+        | ok _ => exact hd
+        | rejected => exact h
+
+theorem mutate_core {s : St} (h : Core s) (key : Key) (m : Mut) (hok : MutOK s key m) :
+    Core (mutate s key m).1 := by
+  unfold mutate
+  cases hc : conOf s key with
+  | none => exact h
+  | some tc =>
+    obtain ⟨t, c⟩ := tc
+    simp only
+    cases hm : mutCon t c m with
+    | none => exact h
+    | some c' => exact replaceCon_core h key c' none (hok t c c' hc hm)
 
 theorem step_core {s : St} (h : Core s) (op : Op) (hok : Admissible s op) : Core (step s op).1 := by
   unfold step stepP
@@ -31,8 +77,11 @@ theorem step_core {s : St} (h : Core s) (op : Op) (hok : Admissible s op) : Core
   | sub ix => exact subspace_core h ix
   | squeeze axes inplace => exact squeezeField_core h axes inplace
   | transpose perm constructs inplace => exact transposeField_core h perm constructs inplace
-  | insdim axis position constructs inplace => exact insertDimension_core h axis position constructs inplace
+  | insdim axis position constructs inplace => exact insertDimension_core h axis position constructs inplace hok
   | convert key full => exact convertField_core h key full
+  | setdn shape axes => exact setDataNew_core h shape axes
+  | mutate key m => exact mutate_core h key m hok
+  | frame => exact h
 
 /-- admissibility of every operation of a history, each judged in the state it is applied to -/
 def AdmissibleRun : St → List Op → Prop
